@@ -23,6 +23,8 @@ func init() {
 			"(O5) slices of element parts (tags, way nodes, members) kept for reuse are only ever re-sliced to [:0], extended by append of whole elements, or replaced by a zeroed make (possibly through an allocation helper), so stale contents of a rejected element cannot reappear in a later one. " +
 			"(O6) every cycle of the loop in which a worker receives blocks sends one result pair (or is taken under cancellation): the result of a fully skipped or fully rejected block is not dropped, so the round-robin serializer stays in step and the selection is a subsequence in file order. " +
 			"(O7) a skip flag decides about the elements of its own kind and about nothing else: its value (followed through locals, struct fields, function results, arguments and boolean accumulations, including results chosen under a branch that depends on it) only reaches branch conditions that are evaluated while the fields of a primitive group are scanned, or conditions that can only hold when every skip flag is set; a flag that ends the scan of a block, bypasses a group or drops a result turns 'some element here is skipped' into 'everything here is skipped'. " +
+			"(O9) when the decoders read the knobs from a copy (a field of a struct of the package every store to which is one knob of the Scanner; O3/O7 treat it as that knob), every exported Scanner method that can start the decoders stores the copy before it does. " +
+			"(O8) an element that is handed to the consumer owns its storage: per element slot, a may-analysis (callees that take the slot executed on their own CFG) tracks whether a slice of the element (tags, way nodes, members) shares its backing array with persistent storage that still refers to it (a field of the decoder or of another struct of the package, a package variable, a sync.Pool, a local assigned at several places) and whether the element has been appended; the element must not be appended while such a loan is outstanding (the lender has to give the array up first, or the slot must have been re-pointed at an element with fresh slices), and persistent storage must not be pointed at the slices of an appended element. " +
 			"NOT decided: value equality with the unfiltered scan (needs C01), what user filters do with the element they are handed.",
 		Assumptions: []string{"go/types, go/cfg (x/tools v0.29.0)", "append on the block's object slice stores the pointer (no copy of the element)", "user filter functions do not retain or mutate rejected elements"},
 		LevelText:   "Structural necessary conditions of 'returned objects are never modified afterwards although rejected memory is reused' and of the skip/filter selection: a may-escaped typestate analysis over the decoding functions' CFGs plus the flag/kind/filter wiring table.",
@@ -36,10 +38,12 @@ func init() {
 			{ID: "O4", Floor: 6, Doc: "flags and filters are read-only inside the package", Run: c08O4},
 			{ID: "O6", Floor: 1, Doc: "a worker forwards one result per block it receives, however few elements the skip flags and filters leave", Run: c08O6},
 			{ID: "O7", Floor: 1, Doc: "the value of a skip flag only reaches conditions that decide about the current field of a primitive group (or that hold only when every flag is set): no block, group or result is dropped because something in it is of a skipped kind", Run: c08O7},
+			{ID: "O8", Floor: 3, Doc: "an element handed to the consumer shares no backing array with storage the decoder keeps; the decoder takes no reference to the slices of an element it has handed out", Run: c08O8},
+			{ID: "O9", Floor: 1, Doc: "a private copy of the knobs that the decoders read has been taken on every path that starts the decoders", Run: c08O9},
 			{ID: "O5", Floor: 5, Doc: "reused element storage is never re-exposed: element slices are only re-sliced to [:0], grown by append of whole elements, or replaced by make", Run: c08O5},
 		},
-		Benign: append(append(append(append(append(append([]core.Mutant{}, c08Benign...), c08Benign2...), c08Benign3...), c08Benign4...), c08Benign5...), c08Benign6...),
-		Mutants: append(append(append([]core.Mutant{}, c08Mutants2...), c08Mutants3...), []core.Mutant{
+		Benign: append(append(append(append(append(append(append([]core.Mutant{}, c08Benign...), c08Benign2...), c08Benign3...), c08Benign4...), c08Benign5...), c08Benign6...), c08Benign7...),
+		Mutants: append(append(append(append([]core.Mutant{}, c08Mutants2...), c08Mutants3...), c08Mutants4...), []core.Mutant{
 			{Name: "way-not-renewed-after-append", File: "osmpbf/decode_data.go", Find: "\t\t\t\tdec.q = append(dec.q, way)\n\t\t\t\tway = &osm.Way{Visible: true}\n", Replace: "\t\t\t\tdec.q = append(dec.q, way)\n", ExpectRule: "O1", ExpectConstruct: "way"},
 			{Name: "relation-renewed-before-append-only", File: "osmpbf/decode_data.go", Find: "\t\t\t\tdec.q = append(dec.q, relation)\n\t\t\t\trelation = &osm.Relation{Visible: true}\n", Replace: "\t\t\t\tdec.q = append(dec.q, relation)\n\t\t\t\trelation.Tags = relation.Tags[:0]\n\t\t\t\trelation = &osm.Relation{Visible: true}\n", ExpectRule: "O1", ExpectConstruct: "relation"},
 			{Name: "node-reused-after-append", File: "osmpbf/decode_data.go", Find: "\t\t\tdec.q = append(dec.q, n)\n\t\t\tn = &osm.Node{Visible: true}\n", Replace: "\t\t\tdec.q = append(dec.q, n)\n\t\t\tn = &osm.Node{Visible: true, Tags: n.Tags[:0]}\n", ExpectRule: "O1", ExpectConstruct: "n"},
